@@ -51,10 +51,32 @@ impl Ord for PreReleaseIdentifier {
     fn cmp(&self, other: &Self) -> Ordering {
         match (self, other) {
             (PreReleaseIdentifier::UInt(a), PreReleaseIdentifier::UInt(b)) => a.cmp(b),
-            (PreReleaseIdentifier::Str(a), PreReleaseIdentifier::Str(b)) => a.cmp(b),
+            (PreReleaseIdentifier::Str(a), PreReleaseIdentifier::Str(b)) => {
+                compare_text_identifiers(a, b)
+            }
             (PreReleaseIdentifier::UInt(_), PreReleaseIdentifier::Str(_)) => Ordering::Less,
             (PreReleaseIdentifier::Str(_), PreReleaseIdentifier::UInt(_)) => Ordering::Greater,
         }
+    }
+}
+
+// The parser keeps a numeric identifier that does not fit u64 as text (digits only, no leading zero,
+// above u64::MAX). It is still a number: above every UInt, below every alphanumeric identifier,
+// and ordered by value among its kind.
+fn is_big_numeric(text: &str) -> bool {
+    const U64_MAX_TEXT: &str = "18446744073709551615";
+    !text.starts_with('0')
+        && text.bytes().all(|c| c.is_ascii_digit())
+        && (text.len() > U64_MAX_TEXT.len()
+            || (text.len() == U64_MAX_TEXT.len() && text > U64_MAX_TEXT))
+}
+
+fn compare_text_identifiers(left: &str, right: &str) -> Ordering {
+    match (is_big_numeric(left), is_big_numeric(right)) {
+        (true, true) => left.len().cmp(&right.len()).then_with(|| left.cmp(right)),
+        (true, false) => Ordering::Less,
+        (false, true) => Ordering::Greater,
+        (false, false) => left.cmp(right),
     }
 }
 
